@@ -24,6 +24,7 @@ func main() {
 	core.VerifDir = *verif
 
 	if *child != "" {
+		core.ApplyChildLimits()
 		os.Exit(mon.Child(*child, flag.Args()))
 	}
 
